@@ -17,6 +17,8 @@ use std::sync::{Arc, Mutex};
 pub enum TMsg {
     Tick(usize, u32),
     Busy(u64),
+    /// the handler keeps the executor for this many virtual ms without suspending
+    Stall(u64),
     Fail,
 }
 impl Message for TMsg {}
@@ -82,6 +84,10 @@ pub enum COp {
     Drain,
     SendFail,
     SendBusy(u64),
+    /// a message whose handler stalls the executor (tokio::time::advance inside the poll)
+    SendStall(u64),
+    /// the client task itself stalls the executor
+    Stall(u64),
 }
 
 #[derive(Clone, Debug)]
@@ -181,6 +187,12 @@ impl Actor for Probe {
             TMsg::Busy(ms) => {
                 obs("obs.busy", "tg", 0, vec![]);
                 ractor::concurrency::sleep(Duration::from_millis(ms)).await;
+                obs("obs.busy_end", "tg", 0, vec![]);
+            }
+            TMsg::Stall(ms) => {
+                // a CPU-bound handler: the virtual clock moves while this poll holds the executor
+                obs("obs.stall", "tg", ms as i64, vec![]);
+                tokio::time::advance(Duration::from_millis(ms)).await;
                 obs("obs.busy_end", "tg", 0, vec![]);
             }
             TMsg::Fail => {
@@ -285,6 +297,14 @@ async fn client(sc: Arc<Scenario>, w: W, ops: Vec<COp>) {
                 let r = target.send_message(TMsg::Busy(ms));
                 obs("obs.send", "tg", i64::from(r.is_ok()), vec![kvs("m", "busy")]);
             }
+            COp::SendStall(ms) => {
+                let r = target.send_message(TMsg::Stall(ms));
+                obs("obs.send", "tg", i64::from(r.is_ok()), vec![kvs("m", "busy")]);
+            }
+            COp::Stall(ms) => {
+                obs("obs.stall", "env", ms as i64, vec![]);
+                tokio::time::advance(Duration::from_millis(ms)).await;
+            }
         }
     }
 }
@@ -292,7 +312,7 @@ async fn client(sc: Arc<Scenario>, w: W, ops: Vec<COp>) {
 /// labels kept whoever emitted them
 const KEEP_OBS: &[&str] = &[
     "obs.instant", "obs.create", "obs.abort", "obs.finished", "obs.join", "obs.stop", "obs.kill", "obs.drain", "obs.send", "obs.handled", "obs.busy",
-    "obs.busy_end", "obs.fail", "obs.post_stop", "obs.sup",
+    "obs.stall", "obs.busy_end", "obs.fail", "obs.post_stop", "obs.sup",
 ];
 /// internal points kept when they concern the target actor
 const KEEP_TG: &[&str] = &["port.msg", "port.stop", "port.drain", "sig.handled", "guard.cleanup"];
@@ -495,6 +515,27 @@ pub fn micro_scenarios() -> Vec<Scenario> {
     ]
 }
 
+/// Executor stalls: a task holds the executor over one or more deadlines (tokio::time::advance inside a poll). The k-th
+/// tick keeps its deadline started + k*period: missed ticks fire back to back at the end of the stall, later ones on time.
+pub fn stall_scenarios() -> Vec<Scenario> {
+    use COp::*;
+    use Kind as K;
+    let sc = |timers: Vec<TimerSpec>, clients: Vec<Vec<COp>>, horizon: u64| Scenario { timers, in_pre_start: vec![], clients, post_stop_yield: false, instant: false, horizon };
+    vec![
+        // a client stalls from 7 to 19: ticks 10 and 15 are missed (9 and 4 ms late), 20.. must be on time again
+        sc(vec![t(K::Interval, 5, Via::Cell), t(K::After, 12, Via::Ref)], vec![vec![Create(0), Create(1), Sleep(7), Stall(12), Join(1)]], 43),
+        // the demo of the seeded change: period 50, the handler stalls from 100 to 375
+        sc(vec![t(K::Interval, 50, Via::Derived)], vec![vec![Create(0), Sleep(100), SendStall(275)]], 633),
+        sc(vec![t(K::Interval, 50, Via::Ref), t(K::Exit, 500, Via::Cell)], vec![vec![Create(0), Create(1), Sleep(120), Stall(200), Sleep(40), Stall(30), Join(0)]], 633),
+        // lateness at most 5 ms and exactly 6 ms (tokio's threshold for "missed")
+        sc(vec![t(K::Interval, 10, Via::Cell), t(K::Interval, 10, Via::Ref)], vec![vec![Create(0), Sleep(8), Stall(7), Sleep(3), Create(1), Sleep(9), Stall(7), Sleep(30), Stop]], 83),
+        // a stall between the call and the first poll of the timer task, and one over the expiry of one-shot timers
+        sc(vec![t(K::After, 5, Via::Cell), t(K::Interval, 5, Via::Derived), t(K::Kill, 20, Via::Ref)], vec![vec![Create(0), Stall(3), Create(1), Create(2)], vec![Sleep(4), SendStall(9)]], 37),
+        // two stalls in a row (the handler, then a client) with several timers due inside, the target stopped right after
+        sc(vec![t(K::Interval, 3, Via::Cell), t(K::Interval, 7, Via::Ref), t(K::After, 6, Via::Derived)], vec![vec![Create(0), Create(1), Create(2), Sleep(4), SendStall(8), Join(2)], vec![Sleep(4), Stall(11), Stop]], 41),
+    ]
+}
+
 /// Small enough for an unbounded DFS: every poll order of three timers that are due at the same instant
 pub fn exhaustive_scenarios() -> Vec<Scenario> {
     use Kind as K;
@@ -677,6 +718,16 @@ pub fn rand_scenario(rng: &mut Rng) -> Scenario {
         }
         clients.push(c);
     }
+    if rng.chance(1, 4) {
+        let mut c = vec![];
+        let at = times[rng.below(times.len())];
+        if at > 0 {
+            c.push(COp::Sleep(at));
+        }
+        let d = [1u64, 4, 6, 7, 12, 23][rng.below(6)];
+        c.push(if rng.chance(1, 2) { COp::Stall(d) } else { COp::SendStall(d) });
+        clients.push(c);
+    }
     let horizon = if fast { 13 } else { 133 };
     Scenario { timers, in_pre_start, clients, post_stop_yield: rng.chance(1, 2), instant: false, horizon }
 }
@@ -713,6 +764,35 @@ pub fn batch(out: &str, tier: &str, seed: u64) -> Value {
         // the capped DFS varies the tail of a run first: add seeded random poll orders of the same scenario
         let mut ex = Explorer::new(Mode::Random, seed.wrapping_mul(0x9E3779B97F4A7C15) ^ 0x6d6963726f);
         for _ in 0..nmicro {
+            ex.begin_run();
+            let (evs, meta, bad) = one_run(&sc, &mut ex);
+            let h = b.run(meta, &evs);
+            if ex.nontrivial {
+                nontrivial.insert(h);
+            }
+            if bad {
+                bad_runs += 1;
+            }
+        }
+    }
+    for sc in stall_scenarios() {
+        let mut ex = Explorer::new(Mode::Dfs { preempt_bound: Some(2) }, seed);
+        for _ in 0..nmicro / 2 {
+            ex.begin_run();
+            let (evs, meta, bad) = one_run(&sc, &mut ex);
+            let h = b.run(meta, &evs);
+            if ex.nontrivial {
+                nontrivial.insert(h);
+            }
+            if bad {
+                bad_runs += 1;
+            }
+            if !ex.end_run() {
+                break;
+            }
+        }
+        let mut ex = Explorer::new(Mode::Random, seed.wrapping_mul(0x9E3779B97F4A7C15) ^ 0x7374616c6c);
+        for _ in 0..nmicro / 2 {
             ex.begin_run();
             let (evs, meta, bad) = one_run(&sc, &mut ex);
             let h = b.run(meta, &evs);
